@@ -165,6 +165,14 @@ def run_shard(prop_id, sub_name, tier, seed, shard, n_examples, budget_s, shrink
                             fh.write(canon({"property": prop_id, "subcheck": sub_name, "facet": v.facet, "detail": v.detail, "case": case}))
                     return None
                 return {"case": case, "facet": v.facet, "detail": v.detail, "observed": v.observed, "expected": v.expected}
+            except Exception as e:  # noqa  (harness error: keep the case for analysis, then let it surface as exit 2)
+                if stats.setdefault("_harness_dumped", 0) < 3:
+                    stats["_harness_dumped"] += 1
+                    d = os.path.join(HOME, "failures", prop_id)
+                    os.makedirs(d, exist_ok=True)
+                    with open(os.path.join(d, f"harness-{sub_name}-{case_hash(case)}.json"), "w") as fh:
+                        fh.write(canon({"property": prop_id, "subcheck": sub_name, "facet": "harness-error", "detail": f"{type(e).__name__}: {e}", "case": case}))
+                raise
             stats["evaluations"] += 1
             for lab in info.get("labels", ()):
                 stats["labels"][lab] += 1
@@ -218,6 +226,7 @@ def run_shard(prop_id, sub_name, tier, seed, shard, n_examples, budget_s, shrink
     except BaseException as e:  # noqa
         stats["harness_errors"].append("".join(traceback.format_exception(type(e), e, e.__traceback__))[-4000:])
     stats["wall_s"] = time.time() - t0
+    stats.pop("_harness_dumped", None)
     stats["nontrivial_keys"] = sorted(stats["nontrivial_keys"])
     for k in ("labels", "discarded_by_rule", "excluded_known"):
         stats[k] = dict(stats[k])
